@@ -16,6 +16,15 @@ case kinds
             name); oracle: the grammar (Spec/Grammar.v) rejects the name => the constructor must raise.
   badbody : a body that does not conform to its signature; correspondence of success/failure and of the counter.
   toolong : a message of more than 2^27 bytes must be refused (implementation only; the model side is the theorem).
+  hostile : a specification-encoded message whose header is hostile to the CURRENT parseMessage: SIGNATURE field
+            of type s / o / as / u or longer than 255 characters, UNIX_FDS field of a non-integer type, negative,
+            huge, with non-empty descriptor lists (and None), UNIX_FD arguments in the body, every flags byte,
+            message types outside 1..4, both byte orders.  Correspondence with Model/MessageCur.v only.
+
+Every parseMessage comparison is also made against MessageCur.parse_message_cur (type, serial, flags, fields, body,
+_otherFlags, rawBody); every constructor call against MessageCur.construct_cur_st; and every message that parsed is
+re-marshalled the way the bus does it (sender := ':1.42', endian := byte 0, _marshal(False, rawBody=m.rawBody))
+against MessageCur.remarshal_cur, with the oracle that the result parses to the same message with the new sender.
 """
 import random
 import struct
@@ -28,7 +37,9 @@ ASSUMPTIONS = c01.ASSUMPTIONS + [
     'the 128 MiB limit is exercised against the implementation only (one case per run); the model side of it is the theorem C03_unconstructible',
     'DBusMessage._nextSerial is read before and after every constructor call; the model is given the value before the call',
     'after a failed constructor call only "the counter did not go backwards" is compared (what the freshness theorem needs), after a successful one the exact value',
-    'parseMessage is called with an empty descriptor list; descriptor passing is C20',
+    'parseMessage is called with an empty descriptor list except in the hostile stream (None and lists of up to 5 integer descriptors); descriptor passing itself is C20',
+    'marshal.ObjectPath / Signature / UInt32 applied by _marshal to a value of another type (str() / int() conversion) is outside the model (EUnmodelled): such re-marshal cases are counted, not compared',
+    'the re-marshal oracle (forwarded bytes parse to the same message with the new sender, restricted to the header fields of the class table) is applied to constructed and conformant foreign messages only',
 ]
 
 HDR_TS = ['y', 'y', 'y', 'y', 'u', 'u', ['a', ['(', ['y', 'v']]]]
@@ -147,10 +158,74 @@ def gen_cases(ctx):
             yield {'kind': 'invalid', 'mt': mt, 'attr': attr, 'value': bad}
     for i, (sig, vals) in enumerate(BAD_BODIES):
         yield {'kind': 'badbody', 'mt': 1 + i % 4, 'sig': sig, 'vals': vals}
+    for c in gen_hostile(ctx):
+        yield c
     yield {'kind': 'toolong'}
     for mt in (1, 2, 3, 4):
         for counts in ([1, 1], [2, 0, 1], [0, 3, 3, 1], [1, 2, 1, 0, 2]):
             yield {'kind': 'fdseq', 'mt': mt, 'counts': counts}
+
+
+SIG_FIELDS = [[8, 's', 'i'], [8, 's', ''], [8, 'o', '/a'], [8, ['a', 's'], ['i']], [8, ['a', 's'], []], [8, 'u', 5], [8, 'u', 0],
+              [8, 's', 'i' * 255], [8, 's', 'i' * 256], [8, 's', 'y' * 300], [8, 's', '\u00e9' * 200], [8, 's', '\u00e9' * 256],
+              [8, 'g', 'y' * 255], [8, 'g', 'ih'], [8, 'g', 'h'], [8, 'g', 'hh'], [8, 'g', 'ahs'], [8, 'b', True], [8, 'v', {'vt': 's', 'w': 'i'}],
+              [8, ['(', ['s']], ['i']], [8, 'd', 0x3ff0000000000000], None]
+FDS_FIELDS = [[9, 'u', 0], [9, 'u', 1], [9, 'u', 2], [9, 'u', 3], [9, 'u', 5], [9, 'u', 2**32 - 1], [9, 'i', -1], [9, 'i', -2], [9, 'i', -7],
+              [9, 'i', 2], [9, 's', 'x'], [9, 's', ''], [9, 'b', True], [9, 'b', False], [9, 'd', 0x3ff0000000000000],
+              [9, ['a', 'y'], [1]], [9, 'x', -2**63], [9, 't', 2**64 - 1], [9, 'y', 2], [9, 'q', 1], [9, 'g', 'u'], None, None]
+FD_LISTS = [None, [], [100], [100, 101, 102], [100, 101, 102, 103, 104]]
+
+
+def gen_hostile(ctx):
+    rng = ctx.rng
+    n = 0
+    # every signature-field shape x every unix_fds-field shape, descriptor list and body rotating
+    combos = [(sf, ff) for sf in SIG_FIELDS for ff in FDS_FIELDS]
+    # the 255-character boundary of the SIGNATURE field with a body that matches it
+    for nsig in (254, 255, 256, 257):
+        for t in ('s', 'g') if nsig <= 255 else ('s',):
+            for code in ('y', 'i'):
+                yield {'kind': 'hostile', 'mt': 4, 'flags': 0, 'serial': 3,
+                       'fields': [[1, 'o', '/a'], [2, 's', 'a.b'], [3, 's', 'M'], [8, t, code * nsig]],
+                       'body': {'ts': [code] * nsig, 'ws': [1] * nsig}, 'le': code == 'y', 'fds': []}
+    extra = ctx.n(600, 12000)
+    for j in range(len(combos) + extra):
+        if j < len(combos):
+            sf, ff = combos[j]
+        else:
+            sf, ff = rng.choice(SIG_FIELDS), rng.choice(FDS_FIELDS)
+        mt = rng.choice([1, 2, 3, 4, 1, 2, 3, 4, 1, 2, 3, 4, 0, 5, 255]) if j >= len(combos) else 1 + j % 4
+        r = rng.random()
+        if r < 0.45:
+            body = {'ts': ['h'], 'ws': [rng.choice([0, 1, 2, 4, 7])]}
+        elif r < 0.6:
+            body = {'ts': ['i', 'h', ['a', 'h']], 'ws': [5, rng.choice([0, 1, 3]), [0, 2, 1]]}
+        elif r < 0.8:
+            body = {'ts': ['i'], 'ws': [rng.choice([0, 1, -7])]}
+        else:
+            body = None
+        if j >= len(combos) and body is not None and rng.random() < 0.6:
+            # a SIGNATURE field that does describe the body, as a signature or (accepted by the parser) as a string
+            sf = [8, rng.choice(['g', 'g', 's']), ''.join(mc.show(t) for t in body['ts'])]
+        fields = [[CODE[a], FIELD_TY[CODE[a]], (NAMES[a][0] if a != 'reply_serial' else 7)] for a in REQ.get(mt, [])]
+        if j >= len(combos) and fields and rng.random() < 0.3:
+            # a field the parser accepts and _marshal refuses (or converts) when the bus forwards the message
+            f = rng.choice(fields)
+            if f[0] == 1:
+                f[2] = rng.choice(['/a/', 'nopath', '', '/a//b'])
+            elif f[0] == 5:
+                f[1], f[2] = rng.choice([('i', -5), ('s', '7'), ('x', 2**40), ('y', 9), ('b', True), ('d', 0x4000000000000000)])
+            else:
+                f[2] = rng.choice(['a\0b', '', 'no dots', '\u00e9'])
+        if sf is not None:
+            fields.append(list(sf))
+        if ff is not None:
+            fields.append(list(ff))
+        if rng.random() < 0.2:
+            fields.append([rng.choice([0, 10, 77, 255]), 's', 'zz'])
+        rng.shuffle(fields)
+        yield {'kind': 'hostile', 'mt': mt, 'flags': rng.randrange(256), 'serial': rng.choice([0, 1, 9, 2**32 - 1]),
+               'fields': fields, 'body': body, 'le': rng.random() < 0.5, 'fds': rng.choice(FD_LISTS)}
 
 
 def build_impl(message, mt, f, vals, sig, er=True, au=True):
@@ -179,8 +254,10 @@ def model_attrs(fields, sig):
     return out
 
 
-def construct_line(legacy, mt, er, au, fields, sig, vals, serial0):
+def construct_line(legacy, mt, er, au, fields, sig, vals, serial0, cur=False):
     body_form = [5, [mc.pv_form(v) for v in vals]] if vals is not None else [10]
+    if cur:
+        return '(3 8 %d %d %d %s %s %d ())' % (mt, er, au, common.dump(model_attrs(fields, sig)), common.dump(body_form), serial0)
     return '(3 1 %d %d %d %d %s %s %d ())' % (legacy, mt, er, au, common.dump(model_attrs(fields, sig)),
                                               common.dump(body_form), serial0)
 
@@ -222,11 +299,48 @@ def spec_recovered(o):
     return [o[3], o[4], o[5], o[6], attrs, body]
 
 
-def parse_impl(message, raw):
+def parse_impl(message, raw, fds=()):
+    """-> (observation against Model/Message.v, observation against Model/MessageCur.v, the message object)"""
     try:
-        return ('ok', obs_parsed(message.parseMessage(raw, [])))
+        m = message.parseMessage(raw, None if fds is None else list(fds))
+        o = obs_parsed(m)
+        return ('ok', o), ('ok', o + [m._otherFlags, bytes(m.rawBody)]), m
     except Exception as e:
-        return ('err', type(e).__name__)
+        return ('err', type(e).__name__), ('err', type(e).__name__), None
+
+
+def model_parsed_cur(o):
+    if o[0] != 1:
+        return ('err', o[1])
+    return ('ok', model_parsed(o)[1] + [o[7], o[8]])
+
+
+SENDER = ':1.42'
+
+
+def remarshal_impl(message, m, raw):
+    """what bus.py does before forwarding: -> ('ok', hdr, pad, body) | ('err', name), counter delta"""
+    M = message.DBusMessage
+    n0 = M._nextSerial
+    try:
+        m.sender = SENDER
+        m.endian = raw[0]
+        m._marshal(False, rawBody=m.rawBody)
+        r = ('ok', bytes(m.rawHeader), bytes(m.rawPadding), bytes(m.rawBody))
+    except Exception as e:
+        r = ('err', type(e).__name__)
+    return r, M._nextSerial - n0
+
+
+def fds_sexp(fds):
+    return '()' if fds is None else '(%s)' % common.dump([[0, x] for x in fds])
+
+
+def table_view(message, o):
+    """a cur observation restricted to what _marshal writes: the attributes of the class table of the type"""
+    mt = o[0]
+    codes = {1: (1, 2, 3, 6, 7, 8), 2: (5, 6, 7, 8), 3: (4, 5, 6, 7, 8), 4: (1, 2, 3, 6, 7, 8)}[mt]
+    return [o[0], o[1], o[2], o[3], {c: v for c, v in o[4].items() if c in codes and v != [10]}, o[5], o[6], o[7]]
 
 
 def layout_defect(hdr, pad, body, serial):
@@ -325,7 +439,7 @@ def evaluate(ctx, cases, res):
     M = message.DBusMessage
     prep = {}
     lines = []
-    stats = {'build': 0, 'foreign': 0, 'invalid': 0, 'badbody': 0, 'toolong': 0}
+    stats = {'build': 0, 'foreign': 0, 'invalid': 0, 'badbody': 0, 'toolong': 0, 'hostile': 0}
     dist = {'types': {}, 'optional_subsets': {}, 'flags': {}, 'sigmodes': {}, 'byte_order': {}, 'body_codes': {},
             'unknown_field_codes': 0, 'repeated_fields': 0}
 
@@ -343,7 +457,7 @@ def evaluate(ctx, cases, res):
                 vals = [shapes.py(t, w) for t, w in zip(c['body']['ts'], c['body']['ws'])]
                 if any(mc.has_none(v) for v in vals):
                     prep[i] = None                # no Python value makes sigFromPy infer this variant type
-                    lines += ['(0)', '(0)', '(0)']
+                    lines += ['(0)', '(0)', '(0)', '(0)']
                     continue
                 sig = ''.join(mc.show(t) for t in c['body']['ts'])
             elif c['sigmode'] == 1:
@@ -374,6 +488,7 @@ def evaluate(ctx, cases, res):
                 lines.append('(1 1 %s %s 0 1 ())' % (common.dump(sig.encode()), common.dump([5, [mc.pv_form(v) for v in vals]])))
             else:
                 lines.append('(0)')
+            lines.append(construct_line(0, c['mt'], c['er'], c['au'], c['fields'], sig, vals, serial0, cur=True))
         elif k == 'foreign':
             fl = [list(f) for f in c['fields']]
             body = c['body']
@@ -383,7 +498,10 @@ def evaluate(ctx, cases, res):
                 fl.insert(c['sigpos'] % (len(fl) + 1), [8, 'g', ''])
             prep[i] = fl
             lines.append(spec_line(c['le'], c['mt'], c['flags'], c['serial'], fl, body))
-            lines += ['(0)', '(0)']
+            lines += ['(0)', '(0)', '(0)']
+        elif k == 'hostile':
+            lines.append(spec_line(c['le'], c['mt'], c['flags'], c['serial'], c['fields'], c['body']))
+            lines += ['(0)', '(0)', '(0)']
         elif k == 'invalid':
             f = {'path': '/a', 'member': 'M', 'interface': 'a.b', 'error_name': 'a.E', 'reply_serial': 1}
             f[c['attr']] = c['value']
@@ -398,6 +516,7 @@ def evaluate(ctx, cases, res):
             lines.append('(18 %s)' % common.dump(c['value']))
             lines.append(construct_line(0, c['mt'], 1, 1, fields, None, None, serial0))
             lines.append('(0)')
+            lines.append(construct_line(0, c['mt'], 1, 1, fields, None, None, serial0, cur=True))
         elif k == 'badbody':
             f = {'path': '/a', 'member': 'M', 'interface': 'a.b', 'error_name': 'a.E', 'reply_serial': 1}
             fields = {a: f[a] for a in REQ[c['mt']]}
@@ -410,32 +529,76 @@ def evaluate(ctx, cases, res):
             prep[i] = (fields, serial0, M._nextSerial, built)
             lines.append(construct_line(0, c['mt'], 1, 1, fields, c['sig'], c['vals'], serial0))
             lines += ['(0)', '(0)']
+            lines.append(construct_line(0, c['mt'], 1, 1, fields, c['sig'], c['vals'], serial0, cur=True))
         else:
-            lines += ['(0)', '(0)', '(0)']
+            lines += ['(0)', '(0)', '(0)', '(0)']
     out1 = common.run_model(lines)
 
-    # ---- stage 2: parse (implementation, model, legacy model), frame length --------------------------
+    # ---- stage 2: parse (implementation, model, legacy model, current model), frame length, bus-style re-marshal ----
     lines2 = []
     stage2 = {}
     for i, c in enumerate(cases):
         k = c['kind']
         raw = None
+        fds = []
         if k == 'build' and prep[i] is not None and prep[i][4][0] == 'ok':
             im = prep[i][4]
             raw = im[1] + im[2] + im[3]
             le = 1
-        elif k == 'foreign':
-            sp = out1[3 * i]
+        elif k in ('foreign', 'hostile'):
+            sp = out1[4 * i]
             raw = sp[0] + sp[1] + sp[2]
             le = 1 if c['le'] else 0
+            if k == 'hostile':
+                fds = c['fds']
         if raw is not None:
-            stage2[i] = (raw, parse_impl(message, raw))
+            pm, pmc, mobj = parse_impl(message, raw, fds)
+            rm = delta = rp = None
+            if mobj is not None:
+                rm, delta = remarshal_impl(message, mobj, raw)
+                if rm[0] == 'ok':
+                    rp = parse_impl(message, rm[1] + rm[2] + rm[3], fds)[1]
+            stage2[i] = (raw, pm, pmc, rm, delta, rp)
             lines2.append('(3 2 0 %s (()))' % common.dump(raw))
             lines2.append('(3 3 %d %s)' % (le, common.dump(raw + b'\x01\x02\x03')))
             lines2.append('(3 2 1 %s (()))' % common.dump(raw))       # the pre-repair parseMessage (D04)
+            lines2.append('(3 5 %s %s)' % (common.dump(raw), fds_sexp(fds)))
+            lines2.append('(3 7 %s %s %s)' % (common.dump(raw), fds_sexp(fds), common.dump(SENDER.encode())))
         else:
-            lines2 += ['(0)', '(0)', '(0)']
+            lines2 += ['(0)', '(0)', '(0)', '(0)', '(0)']
     out2 = common.run_model(lines2)
+
+    def check_cur(i, c, oracle):
+        """current-model correspondence of parse and bus-style re-marshal; oracle: the forwarded bytes parse to the
+        same message with the new sender"""
+        raw, pm, pmc, rm, delta, rp = stage2[i]
+        mc_ = model_parsed_cur(out2[5 * i + 3])
+        if pmc[0] != mc_[0] or (pmc[0] == 'ok' and pmc[1] != mc_[1]):
+            res.disagree(c, pmc, mc_, 'cur_parse')
+        mr = out2[5 * i + 4]
+        if pmc[0] != 'ok':
+            return
+        mrr = ('ok', mr[1], mr[2], mr[3]) if mr[0] == 1 else ('err', mr[1:])
+        if mr[0] == 0 and mr[2] == 9:
+            cur['remarshal_unmodelled'] += 1      # ObjectPath / Signature / UInt32 of a value of another type: str() / int()
+        elif rm[0] != mrr[0] or (rm[0] == 'ok' and rm != mrr):
+            res.disagree(c, rm, mrr, 'cur_remarshal')
+        if delta != 0:
+            res.disagree(c, ('counter', delta), ('counter', 0), 'cur_remarshal_counter')
+        cur['remarshal_ok' if rm[0] == 'ok' else 'remarshal_err'] += 1
+        if not oracle:
+            return
+        if rm[0] != 'ok':
+            res.violate(c, 'the bus-style re-marshal of a conformant message failed: %s' % (rm,), 'remarshal-fails')
+            return
+        want = list(pmc[1])
+        want[4] = dict(want[4])
+        want[4][7] = [3, SENDER.encode()]
+        if rp[0] != 'ok' or table_view(message, rp[1]) != table_view(message, want):
+            res.violate(c, 're-marshalled with sender %s the message parses to %r, it was %r' % (SENDER, rp, want),
+                        'remarshal-changes-message')
+
+    cur = {'remarshal_ok': 0, 'remarshal_err': 0, 'remarshal_unmodelled': 0, 'hostile_parse_ok': 0, 'hostile_parse_err': 0}
 
     # ---- compare ---------------------------------------------------------------------------------------
     seen_serials = evaluate.seen_serials
@@ -456,18 +619,22 @@ def evaluate(ctx, cases, res):
             if c['body']:
                 for t in c['body']['ts']:
                     bump(dist['body_codes'], mc.show(t)[0])
-            mo = out1[3 * i]
-            sp = out1[3 * i + 1]
+            mo = out1[4 * i]
+            sp = out1[4 * i + 1]
             mm = ('ok', mo[1], mo[2], mo[3], serial0) if mo[0] == 1 else ('err', mo[1])
             if im[0] != mm[0] or (im[0] == 'ok' and im[1:5] != mm[1:5]):
                 res.disagree(c, im, mm, 'model_construct')
             if im[0] == 'ok' and serial1 != mo[-1]:
                 res.disagree(c, ('counter', serial0, serial1), ('counter', serial0, mo[-1]), 'model_counter')
+            mc3 = out1[4 * i + 3]                 # the same call through MessageCur.construct_cur_st
+            mm3 = ('ok', mc3[1], mc3[2], mc3[3], serial0) if mc3[0] == 1 else ('err', mc3[1])
+            if im[0] != mm3[0] or (im[0] == 'ok' and (im[1:5] != mm3[1:5] or serial1 != mc3[-1])):
+                res.disagree(c, im, mm3, 'cur_construct')
             if serial1 < serial0:
                 res.violate(c, 'the serial counter went backwards: %d -> %d' % (serial0, serial1), 'serial-counter-decreased')
             conforming = True
             if vals is not None:
-                mb = out1[3 * i + 2]
+                mb = out1[4 * i + 2]
                 conforming = mb[0] == 1 and mb[2] == sp[2]
             if not conforming:
                 nonconf += 1
@@ -476,16 +643,17 @@ def evaluate(ctx, cases, res):
                     res.violate(c, 'a valid message could not be constructed: %s' % (im,), 'construct-fails')
                 continue
             hdr, pad, body, serial = im[1], im[2], im[3], im[4]
-            raw, pm = stage2[i]
-            mp = model_parsed(out2[3 * i])
+            raw, pm = stage2[i][0], stage2[i][1]
+            mp = model_parsed(out2[5 * i])
             if pm[0] != mp[0] or (pm[0] == 'ok' and pm[1] != mp[1]):
                 res.disagree(c, pm, mp, 'model_parse_own')
+            check_cur(i, c, oracle=conforming)
             # oracle 1: the layout clauses of the property text, directly on the bytes (every constructed message)
             why = layout_defect(hdr, pad, body, serial)
             if why is None and (serial == 0 or serial in seen_serials or not (0 < serial < 2**32)):
                 why = 'serial %r is zero or was used before in this process' % (serial,)
-            if why is None and out2[3 * i + 1] != len(raw):
-                why = 'frame length computed from the first 16 bytes (%r) != message length %d' % (out2[3 * i + 1], len(raw))
+            if why is None and out2[5 * i + 1] != len(raw):
+                why = 'frame length computed from the first 16 bytes (%r) != message length %d' % (out2[5 * i + 1], len(raw))
             seen_serials.add(serial)
             if why:
                 res.violate(c, why, 'malformed-own-message')
@@ -511,7 +679,7 @@ def evaluate(ctx, cases, res):
             want2 = [c['mt'], serial, 1 if c['er'] else 0, 1 if c['au'] else 0, want_attrs, want_body]
             if pm[0] == 'ok' and pm[1] != want2:
                 res.violate(c, 'parsing the produced bytes gave %r, constructed %r' % (pm[1], want2), 'parse-own-differs')
-            lp = model_parsed(out2[3 * i + 2])
+            lp = model_parsed(out2[5 * i + 2])
             if lp != mp:
                 legacy_d04 += 1
             res.sample({'kind': 'build', 'mt': c['mt'], 'raw': raw.hex()}, limit=3)
@@ -525,38 +693,48 @@ def evaluate(ctx, cases, res):
                 dist['unknown_field_codes'] += 1
             if len(set(codes)) != len(codes):
                 dist['repeated_fields'] += 1
-            raw, pm = stage2[i]
-            sp = out1[3 * i]
-            mp = model_parsed(out2[3 * i])
+            raw, pm = stage2[i][0], stage2[i][1]
+            sp = out1[4 * i]
+            mp = model_parsed(out2[5 * i])
             if pm[0] != mp[0] or (pm[0] == 'ok' and pm[1] != mp[1]):
                 res.disagree(c, pm, mp, 'model_parse_foreign')
             want = spec_recovered(sp)
             known = [code for code in codes if code in ATTR]
+            check_cur(i, c, oracle=len(set(known)) == len(known))
             if len(set(known)) != len(known):
                 pass        # a repeated header field is not spec-conformant: correspondence only, no oracle
             elif pm[0] != 'ok':
                 res.violate(c, 'spec-conformant foreign message failed to parse: %s' % (pm,), 'parse-foreign-fails')
             elif pm[1] != want:
                 res.violate(c, 'foreign message parsed to %r, it encodes %r' % (pm[1], want), 'parse-foreign-differs')
-            if out2[3 * i + 1] != len(raw):
-                res.violate(c, 'frame length from the first 16 bytes (%r) != message length %d' % (out2[3 * i + 1], len(raw)), 'frame-length')
-            if model_parsed(out2[3 * i + 2]) != mp:
+            if out2[5 * i + 1] != len(raw):
+                res.violate(c, 'frame length from the first 16 bytes (%r) != message length %d' % (out2[5 * i + 1], len(raw)), 'frame-length')
+            if model_parsed(out2[5 * i + 2]) != mp:
                 legacy_d04 += 1
             res.sample({'kind': 'foreign', 'le': c['le'], 'raw': raw.hex()}, limit=5)
+        elif k == 'hostile':
+            stats['hostile'] += 1
+            res.count(c, nontrivial=True)
+            check_cur(i, c, oracle=False)
+            cur['hostile_parse_ok' if stage2[i][2][0] == 'ok' else 'hostile_parse_err'] += 1
+            res.sample({'kind': 'hostile', 'fds': c['fds'], 'raw': stage2[i][0].hex(), 'parsed': stage2[i][2][0]}, limit=8)
         elif k in ('invalid', 'badbody'):
             stats[k] += 1
             res.count(c, nontrivial=True)
             fields, serial0, serial1, built = prep[i]
-            mo = out1[3 * i + (1 if k == 'invalid' else 0)]
+            mo = out1[4 * i + (1 if k == 'invalid' else 0)]
             if built != (mo[0] == 1):
                 res.disagree(c, ('built', built), ('model', mo), 'model_construct')
             elif built and serial1 != mo[-1]:
                 res.disagree(c, ('counter', serial0, serial1), ('counter', serial0, mo[-1]), 'model_counter')
+            mc3 = out1[4 * i + 3]
+            if built != (mc3[0] == 1) or (built and serial1 != mc3[-1]):
+                res.disagree(c, ('built', built, serial1), ('model', mc3), 'cur_construct')
             if serial1 < serial0:
                 res.violate(c, 'the serial counter went backwards: %d -> %d' % (serial0, serial1), 'serial-counter-decreased')
             if k == 'invalid':
                 kind_idx = {'path': 0, 'interface': 1, 'error_name': 2, 'destination': 3, 'member': 4}[c['attr']]
-                grammar_ok = out1[3 * i][kind_idx][2]
+                grammar_ok = out1[4 * i][kind_idx][2]
                 if built and not grammar_ok:
                     res.violate(c, 'message constructed carrying %s=%r, which the DBus grammar rejects' % (c['attr'], c['value']),
                                 'carries-invalid-%s' % c['attr'])
@@ -595,6 +773,8 @@ def evaluate(ctx, cases, res):
                                            'D27 empty interface not validated': bool(legacy_d27) and any(
                                                c['kind'] == 'invalid' and c['value'] == '' for c in cases)}
     ex['legacy_D04_cases'] = legacy_d04
+    for kk, v in cur.items():
+        ex.setdefault('current_model', {})[kk] = ex.get('current_model', {}).get(kk, 0) + v
     ex['nonconforming_shapes_skipped'] = ex.get('nonconforming_shapes_skipped', 0) + nonconf
 
 
